@@ -856,6 +856,24 @@ func registerMisc() {
 		return tuple{(*value)(nil), mkErrorValue(fr.i, "grpc: dial unavailable in the model")}
 	})
 
+	// server start-up: no sockets, no gRPC server in the model
+	ext("net.Listen", func(fr *frame, a []value) value { return tuple{iface{}, iface{}} })
+	ext("google.golang.org/grpc.NewServer", func(fr *frame, a []value) value {
+		var cell value = zero(mustDeref(fr.fn.Signature.Results().At(0).Type()))
+		return &cell
+	})
+	ext("(*google.golang.org/grpc.Server).RegisterService", func(fr *frame, a []value) value { return nil })
+	ext("(*google.golang.org/grpc.Server).Serve", func(fr *frame, a []value) value { return iface{} })
+	ext("(*google.golang.org/grpc.Server).GracefulStop", func(fr *frame, a []value) value { return nil })
+	ext("net.JoinHostPort", func(fr *frame, a []value) value { return a[0].(string) + ":" + a[1].(string) })
+	ext("path.Join", func(fr *frame, a []value) value {
+		parts := []string{}
+		for _, p := range a[0].([]value) {
+			parts = append(parts, p.(string))
+		}
+		return strings.Join(parts, "/")
+	})
+
 	// uuid.NewV4: fresh, distinct from everything else on the path
 	newV4 := func(fr *frame, a []value) value {
 		uuidSeq++
